@@ -574,6 +574,14 @@ func checkFloatGrammar(d *lib.Driver, v any) error {
 	return nil
 }
 
+// chunkRecorder keeps every slice handed to Write (copied)
+type chunkRecorder struct{ chunks [][]byte }
+
+func (r *chunkRecorder) Write(p []byte) (int, error) {
+	r.chunks = append(r.chunks, append([]byte{}, p...))
+	return len(p), nil
+}
+
 func judgeTree(d *lib.Driver, v any, o wopts) error {
 	if err := checkFloatGrammar(d, v); err != nil {
 		return err
@@ -638,7 +646,9 @@ func judgeTree(d *lib.Driver, v any, o wopts) error {
 		// (Sen.isLayout, hypothesis of C10_anylayout_partial)
 		// … and for every sen.Writer text: where the member order is not determined (no Sort, several members) the order is
 		// read off the text by the driver, like for pretty with Align.
-		layout := good && oc.Panic == ""
+		// (not where two member names of one object collide once their invalid bytes are replaced: `want == nil`; the
+		// members cannot be told apart in the text then)
+		layout := good && oc.Panic == "" && want != nil
 		if layout {
 			fl := ""
 			if o.omitNil {
@@ -655,9 +665,68 @@ func judgeTree(d *lib.Driver, v any, o wopts) error {
 			}
 			reqs = append(reqs, "laycheck\t"+fl+"\t"+sb.String()+"\t"+lib.HexF(out))
 		}
+		// sen.Write: the chunks the io.Writer receives against Sen.senWriteTo (buffer, flush at the end of every appendSEN,
+		// the overwrite of the last blank by the tight functions), for the WriteLimit of the case
+		stream := o.writer == "sen.Write" && (tight || indented) && good
+		var goChunks [][]byte
+		if stream {
+			fl := ""
+			if o.omitNil {
+				fl += "n"
+			}
+			if o.omitEmpty {
+				fl += "e"
+			}
+			if o.html {
+				fl += "h"
+			}
+			if fl == "" {
+				fl = "-"
+			}
+			tb := "0"
+			if o.tab {
+				tb = "1"
+			}
+			ind := o.indent
+			if ind < 0 {
+				ind = 0
+			}
+			lim := o.limit
+			if lim <= 0 {
+				lim = 1024
+			}
+			var rec chunkRecorder
+			if err := sen.Write(&rec, v, o.options()); err != nil {
+				stream = false
+			} else {
+				goChunks = rec.chunks
+				reqs = append(reqs, "swrite\t"+fl+"\t"+tb+"\t"+strconv.Itoa(ind)+"\t"+strconv.Itoa(lim)+"\t"+sb.String())
+			}
+		}
 		ans, err := d.Ask(reqs)
 		if err != nil {
 			return err
+		}
+		if stream {
+			sa := ans[len(ans)-1]
+			ans = ans[:len(ans)-1]
+			if sa == "bad-op" {
+				return fmt.Errorf("driver answered bad-op to %v", reqs[len(reqs)-1])
+			}
+			rep.Count("tie.write_chunks", 1)
+			var want []string
+			for _, c := range goChunks {
+				want = append(want, lib.HexF(c))
+			}
+			ws := strings.Join(want, ",")
+			if len(want) == 0 {
+				ws = "-"
+			}
+			if sa != ws {
+				extra["model_chunks"] = sa
+				extra["go_chunks"] = ws
+				add("disagreement", "model:write-chunks", "model (Sen.senWriteTo) and sen.Write hand different chunks to the io.Writer", in, extra)
+			}
 		}
 		if layout {
 			la := ans[len(ans)-1]
